@@ -25,7 +25,8 @@ class NotAPosition(Exception):
 
 def span_replay(res):
     corpus = [b"  abc  ", b"\n (a \"b\" #\\c)\n", b"'x y", b"#(1 2) ;c\n 3", b"(a . b)", b"#u8(1 2) z", b"`(,a ,@b) ", b"  \xce\xbb (\xce\xbb)",
-              b"'  x", b",@  (a  b)", b"`   x", b"( '  x  ,  y )", b"#( a   'b )", b"(a   .   b)", b"  ''  x"]
+              b"'  x", b",@  (a  b)", b"`   x", b"( '  x  ,  y )", b"#( a   'b )", b"(a   .   b)", b"  ''  x",
+              b"(\"ab\ncd\" x)", b"#u8(1\n 2) y", b"(a\n \"s\nt\"\n b)", b"\"x\ny\nz\" w"]
 
     def walk(sp):
         yield sp
@@ -53,8 +54,11 @@ def span_replay(res):
                 for sp in walk(top):
                     (l1, c1), (l2, c2) = sp["s"], sp["e"]
                     lines = text.split(b"\n")
-                    if l1 == l2 and 1 <= l1 <= len(lines):
-                        piece = lines[l1 - 1][c1:c2]
+                    starts = [0]
+                    for ln_ in lines[:-1]:
+                        starts.append(starts[-1] + len(ln_) + 1)
+                    if 1 <= l1 <= len(lines) and 1 <= l2 <= len(lines) and (l1, c1) <= (l2, c2):
+                        piece = text[starts[l1 - 1] + c1:starts[l2 - 1] + c2]
                         w = {"kind": "parse", "input_hex": text.hex(), "opts": "default", "src": "slice", "api": "spans", "fast": True}
                         if not piece.strip() or piece != piece.strip():
                             return {"replayed": True, "observed": {"span": [sp["s"], sp["e"]], "covers": piece.decode("latin-1")}, "witness": w}
